@@ -312,11 +312,14 @@ class Ctx:
             "wall_s": round(wall, 2), "violations": nv,
             "known_findings_hit": self.known_hits,
         }
-        os.makedirs(os.path.join(VERIF, "evidence"), exist_ok=True)
-        tmp = os.path.join(VERIF, "evidence", ".%s.%d.tmp" % (self.prop, os.getpid()))
+        # runs against a scratch copy (VERIF_REPO, used for mutants and seeded changes) must not
+        # overwrite the evidence of the real tree
+        evdir = os.path.join(VERIF, "evidence") if REPO == "/repo" else os.path.join(VERIF, ".work", "evidence-scratch")
+        os.makedirs(evdir, exist_ok=True)
+        tmp = os.path.join(evdir, ".%s.%d.tmp" % (self.prop, os.getpid()))
         with open(tmp, "w") as fh:
             json.dump(ev, fh, indent=1, default=str)
-        os.replace(tmp, os.path.join(VERIF, "evidence", self.prop + ".json"))
+        os.replace(tmp, os.path.join(evdir, self.prop + ".json"))
         shutil.rmtree(self.work, ignore_errors=True)
         if nv:
             for v in self.violations[:5]:
